@@ -54,7 +54,8 @@ Deliver in {out}/ (create it):
                `timeout`, and exits 0 when the property holds and non-zero otherwise (also on a hang / crash)
   meta.json    {{"property": "{pid}", "file": ..., "function": ..., "summary": what you changed and why it breaks the
                property, "needs": what it takes to manifest, "demo": what the demo does, "preexisting": [ ... ]}}
-Verify yourself before reporting: run.sh exits 0 on the unmodified tree (git stash / checkout + make) and non-zero with
+Verify yourself before reporting (do NOT use `git stash`: the stash is shared between worktrees; save your change with
+`git diff > /somewhere/my.diff`, `git checkout -- <files>`, rebuild, test, then `git apply /somewhere/my.diff`): run.sh exits 0 on the unmodified tree and non-zero with
 your change applied and built; the suite passes with the change.  Leave {wt} with the change applied and built.
 
 While reading the code you may notice behaviour of the UNMODIFIED library that already contradicts the property (or is
